@@ -314,6 +314,7 @@ func (env *Env) index(x *SIndex) Value {
 		if env.noHeap {
 			env.fail("heap slice in spec function")
 		}
+		env.enc.registerRefLeaves("E_"+typeKey(u.Elem()), u.Elem(), 2)
 		p := &Place{Kind: PElem, Typ: u.Elem(), Prefix: "E_" + typeKey(u.Elem()), Arr: base.L[0], Off: base.L[1], Idx: i}
 		return env.loadNoAssume(p)
 	case *types.Basic:
